@@ -137,7 +137,7 @@ def nontrivial(case, out):
 
 def _show_obj(ctx, src, r, dflt_cls=L.Default):
     if r is None:
-        return "none"
+        return "self" if src is None else "none"
     if isinstance(r, dflt_cls):
         return "default"
     if r is src:
